@@ -89,9 +89,25 @@ pub struct SrcInfo {
     pub bytes: Vec<u8>,
     pub obs: ObsArchive,
 }
+/// The archive the appended-writer searches start from (last source).
+fn append_base(seed: u64) -> Vec<u8> {
+    let calls = vec![
+        Call::SetComment(b"old comment".to_vec()),
+        Call::StartFile { name: "p0".into(), opts: FOpts { perm: Some(0o640), ..FOpts::m(0) } },
+        Call::Write(content_class(2, seed)),
+        Call::StartFile { name: "p1".into(), opts: FOpts::m(8) },
+        Call::Write(content_class(3, seed)),
+        Call::Finish,
+    ];
+    let (r, b) = exec(&calls, &[]);
+    assert!(r.iter().all(|x| x.is_ok()), "append base could not be built");
+    b
+}
+
 pub fn sources(seed: u64) -> Vec<SrcInfo> {
-    crate::props::c02::sources(seed)
-        .into_iter()
+    let mut v = crate::props::c02::sources(seed);
+    v.push(append_base(seed));
+    v.into_iter()
         .map(|b| {
             let obs = observe(&b, None, 1 << 24).expect("source archive unreadable");
             SrcInfo { bytes: b, obs }
@@ -136,10 +152,31 @@ fn hook_of<S: std::io::Write + std::io::Seek>(_w: &W<S>) -> HookState {
     HookState { writing_to_file: false, writing_to_extra_field: false, writing_to_central_extra_field_only: false, writing_raw: false, inner: "unknown", files: 0, stats_start: 0, bytes_written: 0 }
 }
 
+/// Start state of the histories being executed (process-wide; searches run one after the other): None = a fresh
+/// writer; Some((i, n, comment)) = a writer re-opened with `new_append` on source archive i, whose n entries and
+/// comment the model then lists as already present.
+static BASE: std::sync::RwLock<Option<(usize, usize, Vec<u8>)>> = std::sync::RwLock::new(None);
+fn set_base(b: Option<(usize, usize, Vec<u8>)>) {
+    *BASE.write().unwrap() = b;
+}
+
 fn execute(hist: &[Call], src_bytes: &[Vec<u8>]) -> Run {
-    let sink = SharedBuf::default();
-    let mut w = W::new(sink.clone());
-    let mut model = Model::new();
+    let base = BASE.read().unwrap().clone();
+    let (sink, mut w, mut model) = match base {
+        None => {
+            let sink = SharedBuf::default();
+            let w = W::new(sink.clone());
+            (sink, w, Model::new())
+        }
+        Some((b, n, comment)) => {
+            let sink = SharedBuf::new(src_bytes[b].clone());
+            let zw = match crate::util::guard(|| zip::ZipWriter::new_append(sink.clone())) {
+                Ok(Ok(z)) => z,
+                other => panic!("machinery: the base archive cannot be opened for append: {:?}", other.map(|r| r.map(|_| ()).map_err(|e| e.to_string()))),
+            };
+            (sink, W::from_writer(zw), Model::appended(b, n, comment))
+        }
+    };
     let mut res = Vec::with_capacity(hist.len());
     let mut classes = Vec::with_capacity(hist.len());
     for c in hist {
@@ -171,7 +208,10 @@ fn execute(hist: &[Call], src_bytes: &[Vec<u8>]) -> Run {
 }
 
 fn case_json(hist: &[Call], names: &[&str]) -> Value {
-    json!({"kind": "history", "ops": names, "calls": calls_json(hist)})
+    match BASE.read().unwrap().as_ref() {
+        None => json!({"kind": "history", "ops": names, "calls": calls_json(hist)}),
+        Some((b, _, _)) => json!({"kind": "history", "start": "new_append", "base_source": b, "ops": names, "calls": calls_json(hist)}),
+    }
 }
 
 /// refinement mapping: hook flags <-> model mode. Returns a description on mismatch.
@@ -519,6 +559,11 @@ fn replay(case: &Value, st: &mut Stats, seed: u64) {
     let src_bytes: Vec<Vec<u8>> = srcs.iter().map(|s| s.bytes.clone()).collect();
     let regen = |n: usize| vec![b'q'; n];
     let hist = calls_from_json(&case["calls"], &regen);
+    if let Some(b) = case["base_source"].as_u64() {
+        let b = b as usize;
+        set_base(Some((b, srcs[b].obs.entries.len(), srcs[b].obs.comment.clone())));
+        println!("  start state: ZipWriter::new_append on source archive {b} ({} entries)", srcs[b].obs.entries.len());
+    }
     let names_owned: Vec<String> = case["ops"].as_array().map(|a| a.iter().map(|x| x.as_str().unwrap_or("?").to_string()).collect()).unwrap_or_default();
     let names: Vec<&str> = (0..hist.len()).map(|i| names_owned.get(i).map(|s| s.as_str()).unwrap_or("?")).collect();
     for k in 1..=hist.len() {
@@ -574,6 +619,26 @@ pub fn run(args: &Args) -> i32 {
     if capped2 {
         ctx.cap(format!("core-alphabet search stopped at {} states", r2.states));
     }
+    // start from a non-initial state: the same searches on a writer re-opened with new_append on a finished archive
+    // (two entries and a comment already present; the crate starts such a writer in its after-raw-copy mode)
+    let (r5, r6) = {
+        let base_idx = srcs.len() - 1;
+        let (n, comment) = (srcs[base_idx].obs.entries.len(), srcs[base_idx].obs.comment.clone());
+        set_base(Some((base_idx, n, comment)));
+        let d_app_full = if thorough { 5 } else { 4 };
+        let d_app_core = if thorough { 8 } else { 6 };
+        let (r5, c5) = search(&full, d_app_full, &srcs, &mut ctx.stats, cap, 5);
+        crate::diag!("  [C12] appended writer, full alphabet depth {d_app_full}: states {} transitions {} per level {:?} at {:.1}s", r5.states, r5.transitions, r5.per_level, ctx.elapsed());
+        let (r6, c6) = search(&core, d_app_core, &srcs, &mut ctx.stats, cap, 6);
+        crate::diag!("  [C12] appended writer, core alphabet depth {d_app_core}: states {} transitions {} per level {:?} at {:.1}s", r6.states, r6.transitions, r6.per_level, ctx.elapsed());
+        set_base(None);
+        if c5 || c6 {
+            ctx.cap("appended-writer search stopped at the state cap".to_string());
+        }
+        ctx.bound("appended_writer_start", json!({"base": "2 entries (stored, deflated) + comment, opened with new_append", "depth_full": d_app_full, "depth_core": d_app_core,
+            "states_per_level_full": r5.per_level, "states_per_level_core": r6.per_level}));
+        (r5, r6)
+    };
     // every extra-data header ID, singly, through an explicit and an implicit end ("reserved ... extra data returns an error")
     {
         let src_bytes: Vec<Vec<u8>> = srcs.iter().map(|s| s.bytes.clone()).collect();
@@ -603,10 +668,10 @@ pub fn run(args: &Args) -> i32 {
     }
     ctx.bound("states_per_level_full", json!(r1.per_level));
     ctx.bound("states_per_level_core", json!(r2.per_level));
-    ctx.stats.states = r1.states + r2.states;
-    ctx.stats.transitions = r1.transitions + r2.transitions;
+    ctx.stats.states = r1.states + r2.states + r5.states + r6.states;
+    ctx.stats.transitions = r1.transitions + r2.transitions + r5.transitions + r6.transitions;
     ctx.stats.traces = ctx.stats.transitions;
-    ctx.distinct_counted = r1.states + r2.states;
+    ctx.distinct_counted = r1.states + r2.states + r5.states + r6.states;
     ctx.stats.sample(json!({"ops": ["start_extra", "write-valid-record", "end_local_start_central", "write-valid-record", "end_extra", "write-xyz", "finish"]}));
 
     // second engine: stateright's BFS over the same transition function must find the same number of distinct states
